@@ -6,6 +6,7 @@ package larking
 
 import (
 	"context"
+	"errors"
 	"net/http"
 	"strings"
 
@@ -131,9 +132,17 @@ type fakeRW struct {
 	body        []byte
 	superfluous int // WriteHeader calls after commit
 	flushes     int
+	// a connection that goes away: after okWrites successful Write calls every further Write fails
+	// (okWrites < 0: never); onFail runs at the first failure (net/http cancels the request context)
+	okWrites    int
+	writes      int
+	failedWrite int
+	onFail      func()
 }
 
-func newFakeRW() *fakeRW { return &fakeRW{h: http.Header{}} }
+var errVfConnGone = errors.New("verif: connection gone")
+
+func newFakeRW() *fakeRW { return &fakeRW{h: http.Header{}, okWrites: -1} }
 
 func (w *fakeRW) Header() http.Header { return w.h }
 
@@ -166,6 +175,14 @@ func (w *fakeRW) Write(p []byte) (int, error) {
 	if !w.committed {
 		w.commit(200)
 	}
+	if w.okWrites >= 0 && w.writes >= w.okWrites {
+		if w.failedWrite == 0 && w.onFail != nil {
+			w.onFail()
+		}
+		w.failedWrite++
+		return 0, errVfConnGone
+	}
+	w.writes++
 	w.body = append(w.body, p...)
 	return len(p), nil
 }
@@ -210,12 +227,16 @@ type vfServer struct {
 	setTrail     map[string][]string // and as trailer
 	ctxSeen      context.Context
 	sendHdrFirst bool // call grpc.SendHeader before returning
+	hook         func(ctx context.Context)
 }
 
 func (s *vfServer) unary(ctx context.Context, req *fakeMsg) (interface{}, error) {
 	s.calls++
 	s.got = append(s.got, req)
 	s.ctxSeen = ctx
+	if s.hook != nil {
+		s.hook(ctx)
+	}
 	if s.setHdr != nil {
 		grpc.SetHeader(ctx, s.setHdr)
 	}
